@@ -13,7 +13,7 @@ PROP = dict(
          "option sets, from a maximally shared and a fully unshared build, with a fresh and a reused Hasher. "
          "boc.emit/boc.parse/go.reader: random valid tables in random topological orders x random header variants "
          "(3 magics, idx, crc, cache bits, size up to 4, off_bytes up to 8, several roots, absent count, cells with "
-         "stored hashes). non-trivial = DAG with >= 2 cells and (sharing or a non-byte-aligned cell or an exotic cell), "
+         "stored hashes). boc.order / boc.serialize on every go.writer table. non-trivial = DAG with >= 2 cells and (sharing or a non-byte-aligned cell or an exotic cell), "
          "distinct by table (+ parameters)",
     trusted_base=[
         "hand model lean/TongoModel/Boc.lean (reader) tied to boc/boc.go by exact comparison on every run (boc.parse: "
@@ -24,9 +24,13 @@ PROP = dict(
         "float expression math.Ceil(float64(bits)/8) of serializeBoc modelled by the integer (bits+7)/8 (exact: bits <= 64)",
     ],
     assumptions=[
-        "the ORDER chosen by importCell/reorderCells/revisit is not modelled: its validity (topological, every distinct "
-        "cell exactly once, roots right) is checked per generated input by the verified Lean reader used as an oracle, "
-        "not proved for all inputs (order_valid is stated as a Prop, unproved)",
+        "order_valid / roundtrip_go_writer are about Order.orderWith (lean/TongoModel/BocOrder.lean), the hand model "
+        "of importRoots/importCell/reorderCells/revisit: it is tied to the code on every run by exact comparison "
+        "(boc.order: the cell order read off Go's bytes by the verified reader; boc.serialize: all 2^3 outputs byte "
+        "for byte), and the verified reader still checks every Go output per input (go.writer/boc.check)",
+        "KeyInjOn: the de-duplication key identifies the unfolded tree (for Go's key, the hex SHA-256 representation "
+        "hash: no collision among the cells of the input, Hash() succeeds); the input is a ValidLayout (<= 1023 bits, "
+        "<= 4 refs, depth <= 1024, exotic cells carry their type byte)",
         "de-duplication is keyed by the SHA-256 representation hash: 'shared sub-trees stored once / structurally "
         "equal' is modulo hash collisions; exotic cells are generated with consistent level masks",
         "a Go slice is shorter than 2^63 bytes (hypothesis is_slice / length < two63)",
@@ -34,8 +38,8 @@ PROP = dict(
         "and roots among the cells",
     ],
     partial=[
-        "order_valid (validity of Go's cell order for all DAGs): not proved; checked per input by go.writer through "
-        "the verified reader (boc.check) and by the round trip on Go alone",
+        "the two weight passes of reorderCells are modelled exactly and tied by boc.order, but nothing is proved about "
+        "them beyond what order_valid needs: it holds for EVERY special predicate, so the passes cannot break it",
         "canonical (equal structure => equal bytes): not a theorem; checked per input (shared vs unshared build, fresh "
         "vs reused Hasher, SerializeBoc vs ToBocCustom, all 2^3 option sets byte-identical)",
         "hash equality after the round trip relies on the hashing model of C02 (root hashes are compared Go vs model "
@@ -48,9 +52,13 @@ PROP = dict(
                "0..1023 (completion tag); ref_width_boundaries / off_width_sufficient -- the widths serializeBoc "
                "computes are sufficient and minimal (incl. 255/256/65535/65536 and doubled offsets with cache bits); "
                "writer_params_ok + roundtrip -- the header arithmetic of serializeBoc for ANY valid cell order yields "
-               "bytes that parse back to the same cells. The order algorithm itself is NOT proved (see partial); the Go "
-               "writer is checked per input through the verified reader, the Go reader against the reference writer, "
-               "and reader model == Go on every input exactly.",
+               "bytes that parse back to the same cells; order_valid -- the exact model of Go's ordering (importCell "
+               "with de-duplication, reorderCells, revisit) succeeds on every valid DAG presentation and, for EVERY "
+               "special predicate, yields a valid layout storing each structurally distinct sub-cell exactly once "
+               "whose roots unfold to the input trees; roundtrip_go_writer -- hence the whole writer model round-trips "
+               "through the reader for all 2^3 options. Tie: reader model == Go, order model == Go (cell order and all "
+               "8 outputs byte for byte), Go writer through the verified reader, Go reader against the reference "
+               "writer, on every generated input.",
     level_note="trusted: Lean kernel, hand model of the reader (exactly compared with Go each run), harness, check.py",
     technique="functional model + structural induction (Lean 4); Hoare triples over an allocation monad; verified "
               "parser used as oracle for the unmodelled ordering; differential execution Go vs compiled Lean model",
